@@ -200,7 +200,7 @@ PROPS["C02"] = dict(
     hosts={"histogram": ["c02.rs"]},
     cfgs=["prometheus_verif_sync"],
     env={"PROMETHEUS_VERIF_K": "2"},
-    jobs=1,
+    jobs=3,
     mem_gb=50,
     harnesses={
         "c02_s1_observe_vs_collect": dict(cap=3600),
@@ -208,6 +208,13 @@ PROPS["C02"] = dict(
         "c02_s3_two_observers_vs_collect": dict(cap=7200, tier="experimental"),
         "c02_s4_two_collectors": dict(cap=7200, tier="experimental"),
         "c02_s5_two_collectors_after_observation": dict(cap=5400, tier="experimental"),
+        "c02_s5_diag": dict(cap=5400, tier="experimental"),
+        "c02_diag_a": dict(cap=1500, tier="experimental"),
+        "c02_diag_f": dict(cap=1500, tier="experimental"),
+        "c02_diag_d": dict(cap=1500, tier="experimental"),
+        "c02_diag_e": dict(cap=1500, tier="experimental"),
+        "c02_diag_b": dict(cap=1500, tier="experimental"),
+        "c02_diag_c": dict(cap=1500, tier="experimental"),
         "c03_batch_flush_three_collects": dict(cap=10800, tier="experimental"),
     },
     functions=["HistogramCore::observe", "HistogramCore::proto", "ShardAndCount::{inc, inc_by, flip, get}", "AtomicU64::{inc_by, inc_by_with_ordering, swap, compare_exchange_weak}", "AtomicF64::{inc_by, swap}"],
